@@ -92,6 +92,10 @@ def run(ctx):
         for d in fi.decorators:
             if d.split('.')[-1] in CACHE_DECOS:
                 bad.append((fi.node, 'memoisation decorator @%s (keyed by ==: equal-but-different values such as 2 / 2.0 / True share an entry)' % d))
+        from . import recmodel as _rm
+        for n_, what_ in _rm.stateful_constructs(fi):
+            if 'mutable default' in what_:
+                bad.append((n_, what_))
         # module-level mutable state used as a cache
         for n in ast.walk(fi.node):
             if isinstance(n, ast.Name) and isinstance(n.ctx, ast.Load) and n.id in fi.module.globals and \
@@ -197,6 +201,21 @@ def run(ctx):
                         'the keyword arguments are serialized without first being sorted by name: the key depends on the order in which '
                         'the caller passed them'))
 
+    # ---------------- C06.b (process-wide codec state) nothing in the package reconfigures the serializer the keys are made with
+    GLOBAL_CFG = {'set_encoder_options', 'set_decoder_options', 'set_preferred_backend', 'load_backend', 'remove_backend', 'enable_fallthrough'}
+    cfg_sites = []
+    for m_ in repo.modules.values():
+        for n in ast.walk(m_.tree):
+            if isinstance(n, ast.Call) and norm(n.func).split('.')[-1] in GLOBAL_CFG:
+                cfg_sites.append((m_, n))
+            if isinstance(n, ast.Call) and norm(n.func).endswith('handlers.register'):
+                cfg_sites.append((m_, n))
+    cb.instance('no module of the package changes the process-wide jsonpickle configuration', 'playback', not cfg_sites)
+    cb.evaluations += len(repo.modules)
+    for m_, n in cfg_sites[:2]:
+        res.add(Finding('C06', 'C06.b', 'R-TAINT', m_.relpath, '<module>', n.lineno, norm(n)[:100],
+                        '`%s` reconfigures the serializer for the whole process: the text of an input key then depends on whether (and when) this '
+                        'module was imported, so recorder and replayer processes can disagree on the key of the same call' % norm(n)[:80]))
     # ---------------- C06.d capture selection on the builder's graph
     capture_selection(ctx, res, cd, kb)
 
